@@ -39,8 +39,10 @@ def execute(acc, case):
     rng = random.Random(case["seed"])
     cause, point, role = case["cause"], case["point"], case["role"]
     sc = N.Scenario(seed=case["seed"], strategy=case["strategy"], p=case.get("p", 0.1), role=role, apps=[16777251],
-                    lines=case["strategy"] != "rr", max_steps=700_000, wall_s=120)
+                    lines=case["strategy"] != "rr", max_steps=700_000, wall_s=120, transport=case.get("transport", "TCP"))
     wit = {"case": case}
+    if case.get("transport") == "SCTP":
+        acc.counters["sctp_executions"] += 1      # SctpClient/SctpServer over a fake pysctp module (bvm/vnet.py)
     consumer_state = {"returned": None, "started": False}
     with sc:
         scen.slow_ticker(0.001)
@@ -221,7 +223,8 @@ def main(tier, seed):
                     continue
                 for i in range(reps):
                     cases.append({"seed": seed * 7919 + len(cases), "cause": cause, "point": point, "role": role,
-                                  "strategy": "rr" if i == 0 else "rw", "p": rng.choice([0.02, 0.1, 0.3])})
+                                  "strategy": "rr" if i == 0 else "rw", "p": rng.choice([0.02, 0.1, 0.3]),
+                                  "transport": "SCTP" if (i % 3 == 2 and cause != "refused") else "TCP"})
     rng.shuffle(cases)
     nb = 16 if q else 64
     batches = [{"cases": cases[i::nb]} for i in range(nb)]
